@@ -1,4 +1,6 @@
 import WitnessVerif.Proofs.Core
+import WitnessVerif.Proofs.HonestSign
+import WitnessVerif.Props.C04
 /-
 C08 — an honest log can always move the witness forward (no self-inflicted wedge).
 -/
@@ -58,5 +60,136 @@ theorem C08_honest_progress_partial (H : α → α → α) (e : α) (D : List α
   | some m =>
     obtain ⟨h1, h2⟩ := hs m rfl
     exact C08_honest_progress_core H e D m n h1 h2 hn
+
+end C08
+
+namespace C08
+open Wit
+
+/-- every stored checkpoint parses under its log's key and origin -/
+def StoreParses (cfg : Cfg) (s : Store) : Prop :=
+  ∀ id l raw, cfg.find id = some l → s.get id = some raw → (parse l raw).isSome
+
+/-- "nothing the witness has stored can make its own next verification fail", part 1: whatever is
+    submitted, under whatever storage faults, the store keeps holding only checkpoints that parse under
+    the log's key (the read-back check of `signChkpt`) -/
+theorem C08_store_parses_step (cfg : Cfg) (s : Store) (r : Req) (f : Faults) (h : StoreParses cfg s) :
+    StoreParses cfg (stepF cfg s r f).1 := by
+  intro id l raw hfind hget
+  by_cases hid : id = r.logID
+  · subst hid
+    by_cases herr : (stepF cfg s r f).2.err = .none
+    · -- accepted: what is stored is what `Set` got, and that was read back
+      have hacc : (update cfg (envOf s r.logID f) r.logID r.old r.next r.proof).err = .none := by
+        unfold stepF at herr; simp only at herr; split at herr <;> exact herr
+      obtain ⟨l', _, _, _, signed, hfind', _, _, _, hps, _, hset⟩ := C04.C04_result cfg _ r.logID r.old r.next r.proof hacc
+      rw [hfind] at hfind'; cases hfind'
+      have hst : (stepF cfg s r f).1 = s.set r.logID signed := by
+        unfold stepF; simp only [hset, hacc]
+      rw [hst, Store.get_set_same] at hget
+      cases hget; exact hps
+    · rw [stepF_refused_store cfg s r f herr] at hget
+      exact h _ l raw hfind hget
+  · rw [stepF_other_log cfg s r f id hid] at hget
+    exact h id l raw hfind hget
+
+theorem C08_store_parses_run (cfg : Cfg) : ∀ (reqs : List Req) (s : Store), StoreParses cfg s →
+    StoreParses cfg (run cfg s reqs).1 := by
+  intro reqs
+  induction reqs with
+  | nil => intro s h; exact h
+  | cons r rs ih =>
+    intro s h
+    simp only [run]
+    exact ih _ (C08_store_parses_step cfg s r {} h)
+
+/-- part 2, at byte level: an honest checkpoint — it authenticates under the log's key and origin and
+    bears just the log's own signature line — is accepted whenever the decision core accepts its
+    (size, root) against the stored (size, root), storage and signers work, and the witness's signers have
+    well-formed names (valid, no control characters), non-empty signatures, 32-bit key hashes, keys other
+    than the log's, and are at most 99.  In particular the read-back check cannot fail on it. -/
+theorem C08_honest_accepted_bytes (cfg : Cfg) (env : Env) (id : Bytes) (l : LogInfo)
+    (nextRaw : Bytes) (next : Cp.Checkpoint) (nn : Note.Note) (s : Note.Sig) (outs : List Note.SignerOut)
+    (old : Nat) (proof : List Bytes)
+    (hfind : cfg.find id = some l)
+    (hparse : parse l nextRaw = some (next, nn)) (hs1 : nn.sigs = [s]) (hu : nn.unverified = [])
+    (hraw : nextRaw = nn.text ++ [B.nl] ++ Note.sigLine s.name s.b64)
+    (hw : env.writeOpsErr = false) (hset : env.setErr = false)
+    (hsg : cfg.signers nn.text = some outs)
+    (hval : ∀ o ∈ outs, Note.isValidName o.name = true) (hsig : ∀ o ∈ outs, o.sig ≠ [] ∧ o.hash < 2 ^ 32)
+    (hchars : ∀ o ∈ outs, Utf8.noteCharsOK o.name = true)
+    (hdiff : ∀ o ∈ outs, ¬ (l.verifier.name = o.name ∧ l.verifier.hash = o.hash))
+    (hcount : outs.length + 1 ≤ 100)
+    (hprev : env.prev = .notFound ∨ ∃ raw prev pn, env.prev = .found raw ∧ parse l raw = some (prev, pn) ∧
+        Core.decide cfg.H (toCore prev) old (toCore next) proof = .accepted) :
+    (update cfg env id old nextRaw proof).err = .none := by
+  obtain ⟨hopen, ⟨s', hs', hsh, hsn⟩, hun, horigin⟩ := parse_spec l nextRaw next nn hparse
+  rw [hs1] at hs'
+  simp only [List.mem_cons, List.not_mem_nil, or_false] at hs'
+  subst hs'
+  obtain ⟨hok, _, _⟩ := Note.open_spec nextRaw [l.verifier] nn hopen
+  have hsok := Note.open_sigok nextRaw [l.verifier] nn hopen s' (by rw [hs1]; simp)
+  have hdiff' : ∀ o ∈ outs, ¬ (o.name = s'.name ∧ o.hash = s'.hash) := by
+    intro o ho hc
+    exact hdiff o ho ⟨by rw [← hsn, hc.1], by rw [← hsh, hc.2]⟩
+  have hsign := Note.sign_honest nn s' outs hs1 hu hok hsok hval hdiff'
+  obtain ⟨n', hopen', htext', hsigs'⟩ :=
+    Note.open_sign_honest l.verifier nextRaw nn s' outs hopen hs1 hu hraw hval hsig hchars hdiff hcount
+  have hsigned : nn.text ++ [B.nl] ++ Note.sigLine s'.name s'.b64 ++ Note.newLinesOf outs = nextRaw ++ Note.newLinesOf outs := by
+    rw [hraw]
+  rw [hsigned] at hsign
+  -- the read-back parse succeeds
+  have hps : (parse l (nextRaw ++ Note.newLinesOf outs)).isSome = true := by
+    unfold parse Cp.parseCheckpoint
+    rw [hopen']
+    simp only
+    have hany : n'.sigs.any (fun x => x.hash == l.verifier.hash && x.name == l.verifier.name) = true := by
+      rw [hsigs']; simp [hsh, hsn]
+    rw [if_pos hany, htext', hun]
+    simp only
+    have : (next.origin != l.origin) = false := by simp [horigin]
+    rw [this]; rfl
+  have hss : (signAndSet cfg env l nn { attempt := 1 }).err = .none := by
+    unfold signAndSet
+    rw [hsg]
+    simp only [hsign]
+    have : (parse l (nextRaw ++ Note.newLinesOf outs)).isNone = false := by
+      cases hq : parse l (nextRaw ++ Note.newLinesOf outs) with
+      | none => rw [hq] at hps; cases hps
+      | some _ => rfl
+    simp [this, hset]
+  unfold update
+  simp only [hfind, hparse, hw, Bool.false_eq_true, if_false]
+  rcases hprev with hnf | ⟨raw, prev, pn, hfound, hpp, hdec⟩
+  · rw [hnf]; exact hss
+  · rw [hfound]; simp only [hpp, hdec]; exact hss
+
+/-- the full honest step from a stored checkpoint: sizes `0 < m ≤ n` of the honest log's leaf list `D`,
+    old size = stored size, the RFC 6962 proof — accepted at byte level -/
+theorem C08_honest_progress_bytes (cfg : Cfg) (env : Env) (id : Bytes) (l : LogInfo)
+    (nextRaw : Bytes) (next : Cp.Checkpoint) (nn : Note.Note) (s : Note.Sig) (outs : List Note.SignerOut)
+    (e : Bytes) (D : List Bytes) (m : Nat) (raw : Bytes) (prev : Cp.Checkpoint) (pn : Note.Note)
+    (hfind : cfg.find id = some l)
+    (hparse : parse l nextRaw = some (next, nn)) (hs1 : nn.sigs = [s]) (hu : nn.unverified = [])
+    (hraw : nextRaw = nn.text ++ [B.nl] ++ Note.sigLine s.name s.b64)
+    (hw : env.writeOpsErr = false) (hset : env.setErr = false)
+    (hsg : cfg.signers nn.text = some outs)
+    (hval : ∀ o ∈ outs, Note.isValidName o.name = true) (hsig : ∀ o ∈ outs, o.sig ≠ [] ∧ o.hash < 2 ^ 32)
+    (hchars : ∀ o ∈ outs, Utf8.noteCharsOK o.name = true)
+    (hdiff : ∀ o ∈ outs, ¬ (l.verifier.name = o.name ∧ l.verifier.hash = o.hash))
+    (hcount : outs.length + 1 ≤ 100)
+    (hstored : env.prev = .found raw) (hpp : parse l raw = some (prev, pn))
+    (hm : 0 < m) (hmn : m ≤ next.size) (hn : next.size ≤ D.length)
+    (hprevcp : prev.size = m ∧ prev.hash = M.mth cfg.H e (D.take m))
+    (hnextcp : next.hash = M.mth cfg.H e (D.take next.size)) :
+    (update cfg env id m nextRaw (M.rfcProof cfg.H e m (D.take next.size))).err = .none := by
+  apply C08_honest_accepted_bytes cfg env id l nextRaw next nn s outs m _ hfind hparse hs1 hu hraw hw hset hsg
+    hval hsig hchars hdiff hcount
+  right
+  refine ⟨raw, prev, pn, hstored, hpp, ?_⟩
+  have := C08_honest_progress_core cfg.H e D m next.size hm hmn hn
+  unfold toCore
+  rw [hprevcp.1, hprevcp.2, hnextcp]
+  exact this
 
 end C08
